@@ -8,12 +8,16 @@ For every case the executable forms of the theorems are evaluated on the IMPLEME
 logs with address / warnings: one per key, each the last one for its key of the thread that sent it,
 no key missing). Then
   * single: the output must be exactly `collector (history ++ [Terminate])`;
-  * multi: the driver constructs an interleaving τ of the recorded per-thread sequences (topological
-    order of: thread orders, the observed order of the address-less logs, "every other message with
-    the winner's key comes before the winner"), CHECKS that τ is an interleaving (`isInterleaveB`,
-    proved sound) and that `collector (τ ++ [Terminate])` is exactly the output. -/
+  * multi: the driver searches (depth-first, with backtracking, because messages may be identical
+    within and across threads) an interleaving τ of the recorded per-thread sequences whose
+    address-less logs are the observed ones in the observed order and whose last message per
+    address is the observed winner, then CHECKS that τ is an interleaving (`isInterleaveIdxB`,
+    proved sound) and that `collector (τ ++ [Terminate])` is exactly the output.
+Messages are compared by VALUE as sequences / multisets (identical messages are legal): nothing
+here assumes that messages are distinct. -/
 import CweModel.Base.Proto
 import CweModel.C25.Model
+import Std.Data.HashSet
 open Lean CweModel.Proto
 
 namespace CweModel.C25
@@ -52,13 +56,101 @@ def nodupB {α : Type} [DecidableEq α] : List α → Bool
   | [] => true
   | x :: xs => !xs.contains x && nodupB xs
 
+/-! ### search for an interleaving (messages may be identical, so this needs backtracking) -/
+
+/-- the map a message is deduplicated in, and its key there -/
+def mkey : M → Option (Bool × Option String)
+  | .log l => if l.addr.isSome then some (false, l.addr) else none
+  | .cwe w => some (true, w.key)
+  | .terminate => none
+
+/-- after taking `x` (key `k`, observed winner `w`) the remaining queues `qs` can still end with `w`
+as the last message for `k` -/
+def okAfter (qs : List (List M)) (k : Bool × Option String) (w x : M) : Bool :=
+  let lasts := qs.filterMap fun q => (q.filter fun m => mkey m == some k).getLast?
+  if lasts.isEmpty then x == w else lasts.any (· == w)
+
+abbrev Failed := Std.HashSet (List Nat)
+
+mutual
+/-- depth-first search; `g` = the address-less logs still to be produced, in order; `winner` = the
+observed kept message per key (`none` for a key: any order is fine); positions (remaining queue
+lengths) from which no completion exists are memoised in `failed` (the rest of the state is a
+function of the position). Returns the interleaving with the thread number of every message (if
+found), the remaining step budget and the memo table. -/
+partial def dfs (winner : Bool × Option String → Option (Option M)) (qs : List (List M)) (g : List M)
+    (acc : List (Nat × M)) (budget : Nat) (failed : Failed) : Option (List (Nat × M)) × Nat × Failed :=
+  if qs.all (·.isEmpty) then (if g.isEmpty then some acc.reverse else none, budget, failed)
+  else
+    let pos := qs.map List.length
+    if failed.contains pos then (none, budget, failed)
+    else
+      match tryFrom winner [] qs g acc budget failed with
+      | (some τ, b, f) => (some τ, b, f)
+      | (none, b, f) => (none, b, if b == 0 then f else f.insert pos)
+
+partial def tryFrom (winner : Bool × Option String → Option (Option M)) (before after : List (List M))
+    (g : List M) (acc : List (Nat × M)) (budget : Nat) (failed : Failed) :
+    Option (List (Nat × M)) × Nat × Failed :=
+  match after with
+  | [] => (none, budget, failed)
+  | q :: rest =>
+    match q with
+    | [] => tryFrom winner (before ++ [q]) rest g acc budget failed
+    | x :: t =>
+      if budget == 0 then (none, 0, failed)
+      -- an identical queue was already tried at this point: same subtree
+      else if before.contains q then tryFrom winner (before ++ [q]) rest g acc budget failed
+      else
+        let qs' := before ++ t :: rest
+        let g' : Option (List M) :=
+          match mkey x with
+          | none =>
+            match g with
+            | y :: g' => if y == x then some g' else none
+            | [] => none
+          | some k =>
+            match winner k with
+            | none => some g
+            | some none => none
+            | some (some w) => if okAfter qs' k w x then some g else none
+        match g' with
+        | none => tryFrom winner (before ++ [q]) rest g acc budget failed
+        | some g' =>
+          match dfs winner qs' g' ((before.length, x) :: acc) (budget - 1) failed with
+          | (some τ, b, f) => (some τ, b, f)
+          | (none, b, f) => tryFrom winner (before ++ [q]) rest g acc b f
+end
+
+def searchBudget : Nat := 200000
+
+/-- is `g` an interleaving of the sequences `hs`? (`none` = budget exhausted) -/
+def interleavingExists (hs : List (List M)) (g : List M) : Option Bool :=
+  match dfs (fun _ => none) hs g [] searchBudget {} with
+  | (some _, _, _) => some true
+  | (none, 0, _) => none
+  | (none, _, _) => some false
+
+def findWitness (hs : List (List M)) (logs : List L) (cwes : List C) : Option (List (Nat × M)) × Nat :=
+  let gen := (logs.filter (·.addr.isNone)).map Msg.log
+  let winners : List M := (logs.filter (·.addr.isSome)).map Msg.log ++ cwes.map Msg.cwe
+  let winner (k : Bool × Option String) : Option (Option M) := some (winners.find? fun m => mkey m == some k)
+  let r := dfs winner hs gen [] searchBudget {}
+  (r.1, r.2.1)
+
 /-- executable form of the theorems on an output; `hs` = the parts of the histories sent before
-collection was requested. Returns the name of the first violated clause. -/
+collection was requested. Sequences and multisets, by value. Returns the name of the first violated
+clause. -/
 def specViolation (hs : List (List M)) (logs : List L) (cwes : List C) : Option String :=
   let g := logs.filter (·.addr.isNone)
-  let total := (hs.map fun h => (generalOf h).length).sum
+  let allGen := (hs.map generalOf).flatten
   let kl := logs.filter (·.addr.isSome)
-  if !(g.length == total && hs.all (fun h => (generalOf h).isSublist g)) then some "general-logs"
+  -- address-less logs: same multiset as sent (duplicates count), every thread's sequence is a
+  -- subsequence, and the whole is an interleaving of the threads' sequences
+  if !(g.length == allGen.length && allGen.all (fun x => g.count x == allGen.count x)
+      && hs.all (fun h => (generalOf h).isSublist g)
+      && interleavingExists (hs.map fun h => (generalOf h).map Msg.log) (g.map Msg.log) != some false)
+    then some "general-logs"
   else if !(nodupB (kl.map (·.addr))
       && kl.all (fun l => hs.any fun h => lastOfB (·.addr) l (keyedLogsOf h))
       && hs.all (fun h => (keyedLogsOf h).all fun l => kl.any fun l' => l'.addr == l.addr)) then some "located-logs"
@@ -66,48 +158,6 @@ def specViolation (hs : List (List M)) (logs : List L) (cwes : List C) : Option 
       && cwes.all (fun w => hs.any fun h => lastOfB Cwe.key w (cwesOf h))
       && hs.all (fun h => (cwesOf h).all fun w => cwes.any fun w' => w'.key == w.key)) then some "warnings"
   else none
-
-/-! ### construction of an explaining interleaving -/
-
-def pickAvail (edges : List (Nat × Nat)) (done : Array Bool) :
-    List (List Nat) → Option (Nat × List (List Nat))
-  | [] => none
-  | [] :: qs => (pickAvail edges done qs).map fun r => (r.1, [] :: r.2)
-  | (x :: t) :: qs =>
-    if edges.all (fun e => e.2 != x || done[e.1]!) then some (x, t :: qs)
-    else (pickAvail edges done qs).map fun r => (r.1, (x :: t) :: r.2)
-
-def kahn (edges : List (Nat × Nat)) : Nat → List (List Nat) → Array Bool → List Nat → Option (List Nat)
-  | 0, qs, _, acc => if qs.all (·.isEmpty) then some acc.reverse else none
-  | fuel + 1, qs, done, acc =>
-    if qs.all (·.isEmpty) then some acc.reverse
-    else match pickAvail edges done qs with
-      | none => none
-      | some (x, qs') => kahn edges fuel qs' (done.set! x true) (x :: acc)
-
-def queues : Nat → List (List M) → List (List Nat)
-  | _, [] => []
-  | off, h :: hs => (List.range h.length).map (· + off) :: queues (off + h.length) hs
-
-def findWitness (hs : List (List M)) (logs : List L) (cwes : List C) : Option (List M) :=
-  let flat := hs.flatten
-  let arr := flat.toArray
-  let idx (m : M) : Option Nat := let i := flat.idxOf m; if i < flat.length then some i else none
-  let gen := (logs.filter (·.addr.isNone)).map Msg.log
-  let genEdges := gen.zip gen.tail
-  let keyedAll := keyedLogsOf flat
-  let logEdges := (logs.filter (·.addr.isSome)).flatMap fun w =>
-    (keyedAll.filter fun m => m.addr == w.addr && m != w).map fun m => (Msg.log m, Msg.log w)
-  let cweAll := cwesOf flat
-  let cweEdges := cwes.flatMap fun w =>
-    (cweAll.filter fun m => m.key == w.key && m != w).map fun m => (Msg.cwe m, Msg.cwe w)
-  let edges := (genEdges ++ logEdges ++ cweEdges).filterMap fun e => do
-    let a ← idx e.1
-    let b ← idx e.2
-    pure (a, b)
-  match kahn edges (flat.length + 1) (queues 0 hs) (Array.replicate flat.length false) [] with
-  | none => none
-  | some order => some (order.filterMap fun i => arr[i]?)
 
 def showOut (o : Option (List L × List C)) : String :=
   match o with
@@ -127,7 +177,7 @@ def handleE (line : String) : Except String String := do
       let ls ← mapM' (fun x => do asLog (← parseMsg x)) (← arrF o "logs")
       let cs ← mapM' (fun x => do asCwe (← parseMsg x)) (← arrF o "cwes")
       pure (some (ls, cs))
-  if !nodupB hs.flatten.reverse && mode == "multi" then throw "message ids are not unique"
+  let dup := if nodupB hs.flatten then "" else " identical-messages"
   let pres := hs.map pre
   let sent := (pres.map List.length).sum
   let panicExpected := pres.any fun h => (cwesOf h).any fun w => w.addrs.isEmpty
@@ -149,16 +199,18 @@ def handleE (line : String) : Except String String := do
     if mode == "single" then
       let model := collector leL leC (hs.flatten ++ [.terminate])
       if impl != model then return s!"diff class=single-order model={showOut model} impl={showOut impl}"
-      return s!"ok single constrained{dd}{cut}"
+      return s!"ok single constrained{dd}{cut}{dup}"
     else
       match findWitness hs logs cwes with
-      | none => return s!"diff class=multi-no-interleaving model=none impl={showOut impl}"
-      | some τ =>
-        if !isInterleaveB hs τ then return s!"diff class=multi-witness-not-interleaving model=none impl={showOut impl}"
-        let model := collector leL leC (τ ++ [.terminate])
+      | (none, b) =>
+        let why := if b == 0 then "multi-search-budget" else "multi-no-interleaving"
+        return s!"diff class={why} model=none impl={showOut impl}"
+      | (some τi, _) =>
+        if !isInterleaveIdxB hs τi then return s!"diff class=multi-witness-not-interleaving model=none impl={showOut impl}"
+        let model := collector leL leC (τi.map (·.2) ++ [.terminate])
         if impl != model then
           return s!"diff class=multi-order model={showOut model} impl={showOut impl}"
-        return s!"ok multi constrained threads={k}{dd}"
+        return s!"ok multi constrained threads={k}{dd}{dup}"
 
 end CweModel.C25
 
